@@ -43,13 +43,13 @@ theorem mapM_getItem_spec (b : Buf) (ns : List Nat) (tl : List Item) (h : ns.map
 `latest`, and for every AdaptationSet the listed entries are exactly the numbers first, first+1, …, last —
 each one the segment stored in that AdaptationSet's first representation buffer under that number. -/
 theorem c17_mpd_written (g g' : Gen) (newSeqNr first last : Nat) (ass : List String) (tls : List (List Item))
-    (h : g.mpd newSeqNr ass = .ok g' first last tls) :
+    (h : g.mpdOn newSeqNr ass = .ok g' first last tls) :
     g.latest < newSeqNr ∧ newSeqNr ≤ last ∧ g'.latest = last ∧ g' = { g with latest := last } ∧
     tls.length = ass.length ∧
     ∀ a (ha : a < ass.length) (ht : a < tls.length), ∃ b, lookupBuf g.bufs ass[a] = some b ∧
       tls[a].length = last + 1 - first ∧
       ∀ k (hk : k < tls[a].length), b.getItem (first + k) = some (tls[a][k]) := by
-  unfold Gen.mpd at h
+  unfold Gen.mpdOn at h
   cases hr : g.ctrs.fullRange g.tracks with
   | none => simp [hr] at h
   | some fl =>
@@ -149,11 +149,11 @@ theorem c17_adds_preserve (evs : List (String × Item)) (g : Gen) (hg : GInv g) 
 
 /-- MPD generation changes nothing but `latest`, never panics, and keeps the invariant. -/
 theorem c17_mpd_preserves (g : Gen) (newSeqNr : Nat) (ass : List String) (hg : GInv g) :
-    match g.mpd newSeqNr ass with
+    match g.mpdOn newSeqNr ass with
     | .panic => False
     | .err _ => True
     | .ok g' _ _ _ => GInv g' := by
-  unfold Gen.mpd
+  unfold Gen.mpdOn
   have hfr : g.ctrs.fullRange g.tracks ≠ none := by
     unfold Ctrs.fullRange
     rw [if_neg (by have := hg.cw; rw [this.len]; have := this.nr; omega)]
@@ -178,11 +178,11 @@ generator satisfying the invariant, every track buffer — not only the first re
 `c17_mpd_written` speaks of — holds a segment for every listed number inside the current window
 (`newest counted number < k + windowSize`). -/
 theorem c17_listed_every_track (g g' : Gen) (newSeqNr first last : Nat) (ass : List String) (tls : List (List Item))
-    (hg : GInv g) (hst : g.started = true) (h : g.mpd newSeqNr ass = .ok g' first last tls) :
+    (hg : GInv g) (hst : g.started = true) (h : g.mpdOn newSeqNr ass = .ok g' first last tls) :
     ∀ k, first ≤ k → k ≤ last → mxOf g.ctrs < k + g.w → ∀ p ∈ g.bufs, (p.2.getItem k).isSome = true := by
   intro k hk1 hk2 hwin
   have hw := c17_mpd_written g g' newSeqNr first last ass tls h
-  unfold Gen.mpd at h
+  unfold Gen.mpdOn at h
   cases hr : g.ctrs.fullRange g.tracks with
   | none => simp [hr] at h
   | some fl =>
@@ -288,11 +288,11 @@ theorem c17_lifecycle (w0 w : Nat) (evs1 evs2 : List (String × Item)) (h0 : 0 <
 
 /-- **Every listed number is held by every track** — without the window side condition when all counters are fresh. -/
 theorem c17_listed_every_track_fresh (g g' : Gen) (newSeqNr first last : Nat) (ass : List String) (tls : List (List Item))
-    (hg : GFresh g) (hst : g.started = true) (h : g.mpd newSeqNr ass = .ok g' first last tls) :
+    (hg : GFresh g) (hst : g.started = true) (h : g.mpdOn newSeqNr ass = .ok g' first last tls) :
     ∀ k, first ≤ k → k ≤ last → ∀ p ∈ g.bufs, (p.2.getItem k).isSome = true := by
   intro k hk1 hk2
   have hrange : ∃ x ∈ g.ctrs.live, x.seqNr = k := by
-    unfold Gen.mpd at h
+    unfold Gen.mpdOn at h
     cases hr : g.ctrs.fullRange g.tracks with
     | none => simp [hr] at h
     | some fl =>
@@ -317,6 +317,21 @@ theorem c17_listed_every_track_fresh (g g' : Gen) (newSeqNr first last : Nat) (a
   rw [hxk] at this
   exact c17_listed_every_track g g' newSeqNr first last ass tls hg.base.inv hst h k hk1 hk2 this
 
+/-- **Only representations that have delivered media are written** (`fix:` commit; the late-track finding): the
+AdaptationSets of the written MPD are those with at least one delivering Representation, each keeps exactly its
+delivering Representations, and the timeline is taken from the first of them — so every written Representation has a
+buffer with items, and with `c17_listed_every_track` holds every listed number. -/
+theorem c17_written_reps_deliver (bufs : List (String × Buf)) (ass : List (List String)) :
+    ∀ reps ∈ listedSets bufs ass, reps ≠ [] ∧ (∀ r ∈ reps, delivering bufs r = true) ∧
+      ∃ all ∈ ass, reps = all.filter (delivering bufs) := by
+  intro reps hr
+  unfold listedSets at hr
+  rw [List.mem_filter, List.mem_map] at hr
+  obtain ⟨⟨all, hall, rfl⟩, hne⟩ := hr
+  refine ⟨?_, ?_, all, hall, rfl⟩
+  · intro h; simp [h] at hne
+  · intro r hr; exact (List.mem_filter.mp hr).2
+
 /-- **Counters and buffers stay within the window**: never more than `windowSize` live entries, in arrays of exactly
 that length. -/
 theorem c17_bounded (g : Gen) (hg : GInv g) :
@@ -324,7 +339,7 @@ theorem c17_bounded (g : Gen) (hg : GInv g) :
   ⟨hg.cw.nr, hg.cw.len, fun p hp => ⟨(hg.bw p hp).nr, (hg.bw p hp).len⟩⟩
 
 /-- the range an MPD generation writes, if it writes -/
-def Gen.mpdRange (g : Gen) (n : Nat) (ass : List String) : Option (Nat × Nat) :=
+def Gen.mpdRange (g : Gen) (n : Nat) (ass : List (List String)) : Option (Nat × Nat) :=
   match g.mpd n ass with
   | .ok _ f l _ => some (f, l)
   | _ => none
@@ -338,13 +353,13 @@ def exRun : Option Gen := do
 
 /-- non-vacuity of `c17_listed_every_track_fresh`: a concrete run (two tracks, start, the late track catches up) ends in
 a started state that satisfies `GFresh` and writes an MPD listing 1..2 -/
-example : ∃ g, exRun = some g ∧ GFresh g ∧ g.started = true ∧ g.mpdRange 2 ["v", "a"] = some (1, 2) := by
+example : ∃ g, exRun = some g ∧ GFresh g ∧ g.started = true ∧ g.mpdRange 2 [["v"], ["a"]] = some (1, 2) := by
   obtain ⟨g1, g2, g3, h1, h2, h3, _, hst, _, hf⟩ := c17_lifecycle 8 8 exEvs1 exEvs2 (by decide) (by decide) (by decide) (by decide)
     (by decide) (by decide)
   have hrun : exRun = some g3 := by
     unfold exRun; rw [h1]; simp only [Option.bind_eq_bind, Option.bind_some]; rw [h2]; simp only [Option.bind_some]; exact h3
   refine ⟨g3, hrun, hf (Nat.le_refl _), hst, ?_⟩
-  have hc : (exRun.bind (fun g => g.mpdRange 2 ["v", "a"])) = some (1, 2) := by decide
+  have hc : (exRun.bind (fun g => g.mpdRange 2 [["v"], ["a"]])) = some (1, 2) := by decide
   rw [hrun] at hc
   simpa using hc
 
@@ -356,7 +371,7 @@ example :
        | .ok g _ => match g.add "v" ⟨2, 20, 10, false⟩ with
          | .ok g _ => match g.start 4 false with
            | some g => match g.add "a" ⟨2, 20, 10, false⟩ with
-             | .ok g n => (n, match g.mpd n ["v", "a"] with | .ok _ f l _ => (f, l) | _ => (0, 0))
+             | .ok g n => (n, match g.mpd n [["v"], ["a"]] with | .ok _ f l _ => (f, l) | _ => (0, 0))
              | _ => (0, (0, 0))
            | none => (0, (0, 0))
          | _ => (0, (0, 0))
